@@ -287,6 +287,24 @@ func (fr *frame) call(v *ssa.Call, cc *ssa.CallCommon, st *State, R string, b *s
 				}
 			}
 		}
+		// a value of a named function type under contract: extern "pkg".(T).call(f, args...)
+		if n, ok := cc.Value.Type().(*types.Named); ok && n.Obj().Pkg() != nil {
+			key := n.Obj().Pkg().Path() + "::(" + n.Obj().Name() + ").call"
+			if c, ok := fc.eng.Spec.Funcs[key]; ok {
+				argTerms := []string{fr.val(cc.Value)}
+				argTypes := []types.Type{cc.Value.Type()}
+				for _, a := range cc.Args {
+					argTerms = append(argTerms, fr.val(a))
+					argTypes = append(argTypes, a.Type())
+				}
+				var resT types.Type
+				if v != nil {
+					resT = v.Type()
+				}
+				fr.applyContract(c, nil, cc, argTerms, argTypes, resName, resT, st, R, v)
+				return
+			}
+		}
 		// known closure created in this frame with a contract?
 		if mc, ok := fr.closures[cc.Value]; ok {
 			if c := fc.eng.ContractFor(mc.Fn.(*ssa.Function)); c != nil {
@@ -837,6 +855,9 @@ func (fr *frame) applyContract(ctr *FuncContract, callee *ssa.Function, cc *ssa.
 	envPre := fr.calleeEnv(ctr, callee, cc, argTerms, argTypes, "", nil, pre, pre)
 	envPre.old = nil
 	for _, c := range ctr.Requires {
+		if len(c.OnlyFor) > 0 && fc.eng.CurProp != "" && !containsStr(c.OnlyFor, fc.eng.CurProp) {
+			continue // a caller obligation that belongs to other properties only
+		}
 		g := envPre.tr(c.E)
 		fc.obls = append(fc.obls, &Obl{Func: fc.key, Kind: "requires", Label: calleeName + ":" + c.Label, Site: fr.prefix + site, NFacts: len(fc.facts), Path: R, Goal: g.T, Text: c.Text})
 		fc.fact("", "(=> %s %s)", R, g.T)
